@@ -307,6 +307,10 @@ class JobInit(FSContract):
                 ex.oblige(self.oname("ensures:job_directory_with_valid_state_point"), fs.valid(p, me))
                 if not case["force"]:
                     ex.oblige(self.oname("ensures:idempotent_on_a_valid_job"), z3.Implies(fs0.valid(p, me), fs.eq(fs0)))
+                elif case.get("faults") is False:
+                    # "never rewrites a valid file": with force too, as long as nothing goes wrong while the file is read (a transient read
+                    # fault under force legitimately ends in a rewrite: that case is left to the clause without force)
+                    ex.oblige(self.oname("ensures:a_valid_state_point_file_is_not_rewritten,_with_force_either_(no_I/O_fault)"), z3.Implies(fs0.valid(p, me), fs.eq(fs0)))
             else:
                 ex.oblige(self.oname("ensures:job_directory_exists"), fs.dirs[k])
                 ex.oblige(self.oname("ensures:noop_if_directory_exists"), z3.Implies(fs0.dirs[k], fs.eq(fs0)))
@@ -1146,7 +1150,7 @@ class SSPProxy(Sym):
 
 class UpdateStatepoint(FSContract):
     target = f"{JOB}.Job.update_statepoint"
-    properties = ("C03", "C04")
+    properties = ("C03", "C04", "C11")
     inline = GETTERS + (f"{JOB}.Job.statepoint", f"{JOB}._StatePointDict.__init__", f"{PRJ}.Project._register")
     callees = {f"{JOB}._StatePointDict.load": stub_sp_load}
     faults = False
